@@ -17,7 +17,7 @@ use i_tree::EMPTY_REF;
 use std::collections::BTreeMap;
 
 pub const ORD_OPS: &[&str] = &[
-    "ins", "del", "get", "isempty", "clear", "hread", "hwrite", "hdel", "step", "walk", "sweep", "hsweep", "stepall", "run",
+    "ins", "del", "get", "isempty", "clear", "hread", "hwrite", "hdel", "step", "walk", "sweep", "hsweep", "stepall", "run", "bulk",
 ];
 pub const O_INS: u8 = 0;
 pub const O_DEL: u8 = 1;
@@ -35,6 +35,10 @@ pub const O_STEPALL: u8 = 12;
 /// `run start len dir`: a monotone run of insertions (ascending dir=0 / descending dir=1), the
 /// insertion orders that drive the deepest recolouring and rotation chains
 pub const O_RUN: u8 = 13;
+/// `bulk n order`: n insertions of the keys 0..n (ascending / descending / permuted; keys already
+/// present are skipped), without per-step observations, then one structural checkpoint - the way
+/// structures of 10^4..10^6 entries are built (size thresholds, deep paths, large arenas)
+pub const O_BULK: u8 = 14;
 
 /// Uniform view of the four (+1) collections.
 pub trait OrdColl: Sized {
@@ -355,6 +359,8 @@ struct OrdRun<'a, C: OrdColl> {
     removed_2child: bool,
     removed_any: bool,
     dense: bool,
+    /// take the structural snapshot even though per-step snapshots are off (checkpoints of huge cases)
+    force_snap: bool,
 }
 
 enum Step {
@@ -373,7 +379,7 @@ macro_rules! trace {
 pub fn run_ord<C: OrdColl>(case: &Case, rc: &RunCfg) -> Outcome {
     crate::instr::reset();
     let cap = case.get_i64("cap", 8).max(0) as usize;
-    let u = case.get_i64("U", 6).clamp(1, 10_000_000) as i32;
+    let u = case.get_i64("U", 6).clamp(1, 200_000_000) as i32;
     let snap_on = case.get_i64("snap", 1) != 0;
     let coll = C::make(cap);
     let last_len = coll.snap().map(|s| s.links.len()).unwrap_or(0);
@@ -404,10 +410,18 @@ pub fn run_ord<C: OrdColl>(case: &Case, rc: &RunCfg) -> Outcome {
         removed_2child: false,
         removed_any: false,
         dense: case.get_i64("dense", if u <= 64 { 1 } else { 0 }) != 0,
+        force_snap: false,
     };
+    let mut last_look = 0usize;
     for (i, op) in case.ops.iter().enumerate() {
         if r.out.failure.is_some() || r.out.blocked.is_some() {
             break;
+        }
+        if [O_GET, O_HREAD, O_HWRITE, O_STEP, O_WALK, O_SWEEP, O_HSWEEP, O_STEPALL].contains(&op.kind) {
+            if i >= last_look + 100 {
+                r.out.class("sparse_observations");
+            }
+            last_look = i;
         }
         match r.step(i, op) {
             Step::Continue => {}
@@ -418,6 +432,9 @@ pub fn run_ord<C: OrdColl>(case: &Case, rc: &RunCfg) -> Outcome {
     if r.out.failure.is_none() && r.out.blocked.is_none() && !r.dense && !case.ops.is_empty() {
         let n = case.ops.len();
         r.final_battery(n);
+        if r.out.failure.is_none() && r.out.blocked.is_none() && !r.snap_on && rc.inject.is_none() && !rc.inject_all {
+            r.checkpoint(n, false);
+        }
     }
     if r.out.failure.is_none() && r.out.blocked.is_none() && rc.want_state {
         r.out.state_key = r.state_key();
@@ -486,7 +503,7 @@ impl<'a, C: OrdColl> OrdRun<'a, C> {
     }
 
     fn pre_view(&mut self, i: usize) -> Option<(VerifSnapshot, TreeView)> {
-        if !self.snap_on || !C::IS_TREE {
+        if !(self.snap_on || self.force_snap) || !C::IS_TREE {
             return None;
         }
         let s = self.coll.snap().unwrap();
@@ -507,7 +524,7 @@ impl<'a, C: OrdColl> OrdRun<'a, C> {
     }
 
     fn post_struct(&mut self, i: usize, pre: &Option<(VerifSnapshot, TreeView)>, after_clear: bool) -> Option<(VerifSnapshot, TreeView)> {
-        if !self.snap_on || !C::IS_TREE {
+        if !(self.snap_on || self.force_snap) || !C::IS_TREE {
             return None;
         }
         let s = self.coll.snap().unwrap();
@@ -570,6 +587,9 @@ impl<'a, C: OrdColl> OrdRun<'a, C> {
         }
         if view.height >= 6 {
             self.out.class("height_ge_6");
+        }
+        if view.height >= 33 {
+            self.out.class("height_ge_33");
         }
         if let Some((_, pv)) = pre {
             if view.n < pv.n {
@@ -636,8 +656,12 @@ impl<'a, C: OrdColl> OrdRun<'a, C> {
     }
 
     /// model predecessor (greatest key satisfying the bound)
-    fn model_pred(&self, bound: impl Fn(i32) -> bool) -> Option<(i32, u64)> {
-        self.model.iter().rev().find(|(k, _)| bound(**k)).map(|(k, v)| (*k, *v))
+    fn model_le(&self, p: i32) -> Option<(i32, u64)> {
+        self.model.range(..=p).next_back().map(|(k, v)| (*k, *v))
+    }
+
+    fn model_lt(&self, p: i32) -> Option<(i32, u64)> {
+        self.model.range(..p).next_back().map(|(k, v)| (*k, *v))
     }
 
     /// compare what a handle / lookup shows with the model entry (k, serial)
@@ -666,10 +690,19 @@ impl<'a, C: OrdColl> OrdRun<'a, C> {
             return (-1..=self.u).collect();
         }
         let mut v: Vec<i32> = vec![-1, 0, self.u - 1, self.u];
-        for k in self.model.keys().take(1500) {
-            v.push(*k - 1);
-            v.push(*k);
-            v.push(*k + 1);
+        let n = self.model.len();
+        if n <= 1500 {
+            for k in self.model.keys() {
+                v.extend([*k - 1, *k, *k + 1]);
+            }
+        } else {
+            // both ends and an evenly spaced sample of the rest
+            let stride = n / 1000;
+            for (j, k) in self.model.keys().enumerate() {
+                if j < 250 || j + 250 >= n || j % stride == 0 {
+                    v.extend([*k - 1, *k, *k + 1]);
+                }
+            }
         }
         v.sort();
         v.dedup();
@@ -809,7 +842,10 @@ impl<'a, C: OrdColl> OrdRun<'a, C> {
         if !C::IS_TREE || !self.rc.obs(17) {
             return;
         }
-        let keys: Vec<i32> = self.model.keys().copied().collect();
+        // huge structures: both ends and an evenly spaced sample
+        let n = self.model.len();
+        let stride = (n / 2000).max(1);
+        let keys: Vec<i32> = self.model.keys().copied().enumerate().filter(|(j, _)| n <= 4000 || *j < 100 || *j + 100 >= n || *j % stride == 0).map(|(_, k)| k).collect();
         for k in keys {
             let coll = &self.coll;
             let (r, _, _) = lib_call(None, crate::run::INTERNAL_BUDGET, false, || coll.first_index_less(k));
@@ -916,6 +952,7 @@ impl<'a, C: OrdColl> OrdRun<'a, C> {
                 }
                 Step::Continue
             }
+            O_BULK => self.op_bulk(i, op),
             O_RUN => {
                 let len = op.args[1].rem_euclid(200).max(1);
                 let desc = op.args[2].rem_euclid(2) == 1;
@@ -1347,11 +1384,116 @@ impl<'a, C: OrdColl> OrdRun<'a, C> {
             self.twin = Some(C::make(self.cap));
             self.out.class("twin_started");
         }
-        self.post_struct(i, &pre, true);
+        if self.snap_on {
+            self.post_struct(i, &pre, true);
+        } else {
+            self.checkpoint(i, true);
+        }
         if self.out.failure.is_some() || self.out.blocked.is_some() {
             return Step::Stop;
         }
         if !self.dense_battery(i) {
+            return Step::Stop;
+        }
+        Step::Continue
+    }
+
+    /// structural validity once, in cases that run without per-step snapshots
+    fn checkpoint(&mut self, i: usize, after_clear: bool) {
+        if !C::IS_TREE || self.rc.inject.is_some() || self.rc.inject_all {
+            return;
+        }
+        self.force_snap = true;
+        let none = None;
+        self.post_struct(i, &none, after_clear);
+        self.force_snap = false;
+        self.out.class("checkpoint");
+    }
+
+    fn op_bulk(&mut self, i: usize, op: &RawOp) -> Step {
+        let n = op.args[0].rem_euclid(2_000_001);
+        let order = op.args[1].rem_euclid(3);
+        // keys base, base+stride, ..., base+(n-1)*stride
+        let base = op.args[2].rem_euclid(100_000_000);
+        let stride = op.args[3].rem_euclid(10_001).max(1);
+        let top = base + n * stride;
+        if top >= i32::MAX as i64 {
+            self.out.degraded += 1;
+            self.out.callbacks.push(0);
+            return Step::Continue;
+        }
+        if (self.u as i64) < top {
+            self.u = top as i32;
+        }
+        trace!(self, "#{} bulk insert of the absent keys among {} + j*{} (j < {}) in {} order", i, base, stride, n, ["ascending", "descending", "permuted"][order as usize]);
+        let mut step = ((n as f64) * 0.618) as i64 | 1;
+        while n > 1 && gcd(step, n) != 1 {
+            step += 2;
+        }
+        let hold = C::IS_TREE && self.rc.obs(17);
+        for j in 0..n {
+            let k = (base
+                + stride
+                    * match order {
+                        0 => j,
+                        1 => n - 1 - j,
+                        _ => (j * step) % n,
+                    }) as i32;
+            if self.model.contains_key(&k) {
+                continue;
+            }
+            let serial = self.next_serial();
+            let coll = &mut self.coll;
+            let v = C::P::from_serial(serial);
+            let (r, _, _) = lib_call(None, crate::run::INTERNAL_BUDGET, false, || coll.insert(k, v));
+            if let Err(e) = r {
+                return self.on_call_err(i, e, &[], "insert (bulk)");
+            }
+            self.model.insert(k, serial);
+            if let Some(tw) = self.twin.as_mut() {
+                tw.insert(k, C::P::from_serial(serial));
+            }
+            if hold {
+                // C17: a handle for every inserted entry, all verified once the bulk is through
+                let coll = &self.coll;
+                let (r, _, _) = lib_call(None, crate::run::INTERNAL_BUDGET, false, || coll.first_index_less(k));
+                match r {
+                    Ok(h) if h != EMPTY_REF => {
+                        self.held.insert(k, h);
+                    }
+                    Ok(_) => {
+                        self.out.fail(17, "handle-of-new-entry", i, format!("{}: first_index_less({}) is EMPTY_REF right after insert({})", C::NAME, k, k));
+                        return Step::Stop;
+                    }
+                    Err(e) => return self.on_call_err(i, e, &[17], "first_index_less (bulk)"),
+                }
+            }
+        }
+        self.out.callbacks.push(0);
+        self.out.class("bulk");
+        if self.model.len() >= 4096 {
+            self.out.class("stored_ge_4096");
+        }
+        if self.model.len() >= 65536 {
+            self.out.class("stored_ge_65536");
+        }
+        if self.model.len() >= 196_608 {
+            self.out.class("stored_ge_196608");
+        }
+        if !self.check_held(i) {
+            return Step::Stop;
+        }
+        if self.held.len() > 4000 {
+            // every handle was just verified; keep an evenly spaced sample for the operations that follow
+            let stride = self.held.len() / 2000;
+            let mut j = 0usize;
+            self.held.retain(|_, _| {
+                j += 1;
+                j % stride == 0
+            });
+        }
+        self.checkpoint(i, false);
+        if self.out.failure.is_some() || self.out.blocked.is_some() {
             return Step::Stop;
         }
         Step::Continue
@@ -1372,8 +1514,8 @@ impl<'a, C: OrdColl> OrdRun<'a, C> {
                 return false;
             }
         };
-        let exp_le = self.model_pred(|k| k <= p);
-        let exp_by = if fam % 3 == 2 { self.model_pred(|k| k < p) } else { exp_le };
+        let exp_le = self.model_le(p);
+        let exp_by = if fam % 3 == 2 { self.model_lt(p) } else { exp_le };
         trace!(self, "#{} first_index_less({}) -> {}, first_index_less_by(family {}, {}) -> {} (model {:?} / {:?})", i, p, fmt_h(h), fam, p, fmt_h(hb), exp_le, exp_by);
         match exp_le {
             None => self.out.class("hprobe_below_min"),
@@ -1433,7 +1575,7 @@ impl<'a, C: OrdColl> OrdRun<'a, C> {
             self.out.degraded += 1;
             return Step::Continue;
         }
-        let Some((k, _old)) = self.model_pred(|k| k <= p) else {
+        let Some((k, _old)) = self.model_le(p) else {
             // nothing to write through; still a read check
             return if self.hread(i, p, 0) { Step::Continue } else { Step::Stop };
         };
@@ -1485,7 +1627,7 @@ impl<'a, C: OrdColl> OrdRun<'a, C> {
     fn op_hdel(&mut self, i: usize, op: &RawOp) -> Step {
         self.out.callbacks.push(0);
         let p = self.probe_of(op.args[0]);
-        let Some((k, _)) = self.model_pred(|k| k <= p) else {
+        let Some((k, _)) = self.model_le(p) else {
             return if self.hread(i, p, 0) { Step::Continue } else { Step::Stop };
         };
         let pn = if C::IS_TREE { 8 } else { 13 };
@@ -1694,5 +1836,13 @@ fn fmt_h(h: u32) -> String {
         "EMPTY".to_string()
     } else {
         h.to_string()
+    }
+}
+
+fn gcd(a: i64, b: i64) -> i64 {
+    if b == 0 {
+        a.abs()
+    } else {
+        gcd(b, a % b)
     }
 }
